@@ -116,10 +116,12 @@ type Pool struct {
 	mu         sync.Mutex
 	idle       []*worker
 	Restarts   int
+	// TimeoutRetries counts jobs that were run a second time after exceeding the wall-clock limit
+	TimeoutRetries int
 }
 
 func NewPool(n int) *Pool {
-	return &Pool{N: n, JobTimeout: 120 * time.Second}
+	return &Pool{N: n, JobTimeout: 300 * time.Second}
 }
 
 func (p *Pool) start() (*worker, error) {
@@ -180,7 +182,26 @@ func (p *Pool) Close() {
 	p.idle = nil
 }
 
+// runOne runs a job; a job whose worker exceeded the wall-clock limit is run once more, alone on a fresh worker with
+// three times the limit: on a loaded machine the first attempt says nothing about the code under test (its hangs are
+// found by the controlled scheduler as "no enabled thread"; this clock only guards against what the scheduler cannot
+// see), and only a job that times out twice is reported as dead.
 func (p *Pool) runOne(j Job) JobResult {
+	r := p.runOnce(j, p.JobTimeout)
+	if r.Died && strings.Contains(r.Error, "timed out") {
+		p.mu.Lock()
+		p.TimeoutRetries++
+		p.mu.Unlock()
+		r2 := p.runOnce(j, 3*p.JobTimeout)
+		if r2.Died {
+			r2.Error += " (second attempt, three times the limit)"
+		}
+		return r2
+	}
+	return r
+}
+
+func (p *Pool) runOnce(j Job, limit time.Duration) JobResult {
 	w, err := p.get()
 	if err != nil {
 		return JobResult{Error: "cannot start worker: " + err.Error()}
@@ -218,7 +239,7 @@ func (p *Pool) runOne(j Job) JobResult {
 		}
 		p.put(w)
 		return res
-	case <-time.After(p.JobTimeout):
+	case <-time.After(limit):
 		// ask for goroutine dump, then kill
 		_ = w.cmd.Process.Signal(sigQuit)
 		time.Sleep(300 * time.Millisecond)
@@ -227,7 +248,7 @@ func (p *Pool) runOne(j Job) JobResult {
 		p.mu.Lock()
 		p.Restarts++
 		p.mu.Unlock()
-		return JobResult{Died: true, Error: fmt.Sprintf("worker timed out after %v", p.JobTimeout), Log: tail(log, 6000)}
+		return JobResult{Died: true, Error: fmt.Sprintf("worker timed out after %v", limit), Log: tail(log, 6000)}
 	}
 }
 
